@@ -17,7 +17,8 @@ EXTENDS Lifecycle, Json
 CONSTANTS Family,     \* "event1" | "event2" | "raw" | "rawevent" | "join"
           Versions,   \* room versions to enumerate
           TypesC,     \* subject types to enumerate
-          Depth,      \* "core" | "full": class sets
+          Depth,      \* "core" | "full" | "extra": class sets
+          FieldSet,   \* "core": identifier / structure / content fields only; "full": every field
           MaxOps,     \* longest pipeline (operations, the parse included)
           Heavy,      \* heavy observers applied directly after the parse
           HeavyAfter, \* heavy observers applied after a mutator
@@ -35,13 +36,26 @@ TypesB == {"power_levels", "join_rules", "third_party_invite"}
 TypesC4 == {"redaction", "aliases", "history_visibility", "message"}
 HeavyAll == HeavyOps
 HeavyLiteSet == HeavyLite
+HeavyMid == {"VerifySignatures", "AuthCheck:event", "AuthCheck:provider", "AddToProvider", "Resolve:new:both", "Resolve:old:both",
+             "Resolve:direct:both", "Resolve:topo_auth:all", "Resolve:checkstate:state", "Resolve:sendjoin:auth", "Resolve:load:all"}
+Heavy3 == {"AuthCheck:event", "AuthCheck:provider", "Resolve:new:both"}
+VersionsTwo == {"5", "12"}
+VersionsPair == {"2", "12"}
+VersionsThree == {"2", "10", "12"}
+TypesThree == {"create", "member", "power_levels"}
+TypesTwo == {"member", "power_levels"}
 MutsAll == Mutators
 MutsQuick == {"Redact", "Sign", "SetUnsigned"}
 NoOps == {}
 
 \* ---- event families ---------------------------------------------------------------------
+CoreGroups == {"room_id", "sender", "state_key", "redacts", "type", "content", "prev", "auth", "event_id"}
+FieldsC(v, t) == IF FieldSet = "core"
+                 THEN {f \in Fields(v, t) : f.grp \in CoreGroups /\ (f.grp = "event_id" => EventFormat(v) = 1)}
+                 ELSE Fields(v, t)
+
 SingleFaults(v, t) ==
-    UNION {{Fault(f, c) : c \in ClassesOf(f.kind, Depth)} : f \in Fields(v, t)}
+    UNION {{Fault(f, c) : c \in ClassesOf(f.kind, Depth)} : f \in FieldsC(v, t)}
 
 \* double faults: one identifier / structure field together with a second field, core classes
 PairA == <<F("top/room_id", "room", "room_id"), F("top/sender", "user", "sender"), F("top/state_key", "user", "state_key")>>
@@ -50,13 +64,13 @@ PairB(t) == {F("top/sender", "user", "sender"), F("top/state_key", "user", "stat
                \cup {f \in ContentFields(t) : f.kind \in {"user", "event", "membership", "join_rule"}}
 PairClasses(kind) == CASE kind \in {"room", "user", "event"} -> {"missing", "empty", "sigil_only", "sigil_colon", "nodomain", "baddomain_space", "long_mb"}
                        [] kind = "json" -> {"null", "array", "string", "empty_obj"}
-                       [] kind = "refs" -> {"empty", "other_format", "self"}
+                       [] kind = "refs" -> {"empty", "other_format", "self", "cycle"}
                        [] kind = "str" -> {"missing", "empty_str"}
                        [] OTHER -> ClassesOf(kind, "core")
 
 InitEvent1 ==
     \E v \in Versions, t \in TypesC :
-    \E f \in SingleFaults(v, t) \cup {NoFault} :
+    \E f \in SingleFaults(v, t) \cup (IF Depth = "extra" THEN {} ELSE {NoFault}) :
        subject = [fam |-> "event", ver |-> v, type |-> t, f1 |-> f, f2 |-> NoFault]
 
 InitEvent2 ==
@@ -106,7 +120,8 @@ InitRaw ==
 \* event JSON (one fault) handed to the Raw operations that the handlers apply to remote events
 InitRawEvent ==
     \E v \in Versions, t \in TypesC :
-    \E f \in SingleFaults(v, t), op \in {"RedactJSON", "SignJSON", "Canonicalise:Enforced", Dec("ProtoEvent")} :
+    \E f \in SingleFaults(v, t), op \in {"RedactJSON", "SignJSON", "Canonicalise:Enforced", Dec("ProtoEvent"),
+                                        "Body:CheckStateResponse", "Body:SendJoin", "Body:Transaction", "Body:LoadAndVerify"} :
        subject = [fam |-> "raw", ver |-> v, type |-> "event", f1 |-> f,
                   f2 |-> [path |-> t, kind |-> "none", grp |-> "none", cls |-> "none"], op |-> op]
 
@@ -181,5 +196,5 @@ Emit ==
         PrintT(ToJson([fam |-> subject.fam, ver |-> subject.ver, type |-> subject.type,
                        p1 |-> subject.f1.path, k1 |-> subject.f1.kind, c1 |-> subject.f1.cls,
                        p2 |-> subject.f2.path, k2 |-> subject.f2.kind, c2 |-> subject.f2.cls,
-                       ops |-> OpsOf(hist), must |-> IsEventFam /\ Verdict = "must"]))
+                       ops |-> OpsOf(hist), pv |-> IF IsEventFam THEN Verdict ELSE "may"]))
 =============================================================================
